@@ -1219,15 +1219,17 @@ fn execute_match(
     // add 'send quote to asker' and 'send base to bidder' messages
     match &ask_order.class {
         AskOrderClass::Basic => {
-            response = add_transfer(
-                response,
-                is_quote_restricted_marker.to_owned(),
-                net_proceeds.into(),
-                bid_order.quote.denom.to_owned(),
-                ask_order.owner.to_owned(),
-                env.contract.address.to_owned(),
-                env.contract.address.to_owned(),
-            );
+            if !net_proceeds.is_zero() {
+                response = add_transfer(
+                    response,
+                    is_quote_restricted_marker.to_owned(),
+                    net_proceeds.into(),
+                    bid_order.quote.denom.to_owned(),
+                    ask_order.owner.to_owned(),
+                    env.contract.address.to_owned(),
+                    env.contract.address.to_owned(),
+                );
+            }
             response = add_transfer(
                 response,
                 is_base_restricted_marker.to_owned(),
@@ -1264,15 +1266,17 @@ fn execute_match(
                 env.contract.address.to_owned(),
             );
 
-            response = add_transfer(
-                response,
-                is_quote_restricted_marker.to_owned(),
-                net_proceeds.into(),
-                bid_order.quote.denom.clone(),
-                approver.to_owned(),
-                env.contract.address.to_owned(),
-                env.contract.address.to_owned(),
-            );
+            if !net_proceeds.is_zero() {
+                response = add_transfer(
+                    response,
+                    is_quote_restricted_marker.to_owned(),
+                    net_proceeds.into(),
+                    bid_order.quote.denom.clone(),
+                    approver.to_owned(),
+                    env.contract.address.to_owned(),
+                    env.contract.address.to_owned(),
+                );
+            }
         }
         AskOrderClass::Convertible { status } => {
             return Err(ContractError::AskOrderNotReady {
